@@ -75,6 +75,10 @@ func (s Shape) String() string {
 
 var ErrInvalidType = errors.New("invalid type")
 
+// ErrInvalidTensorShape is returned when the dimensions of a tensor are negative or
+// do not match the number of elements in its data.
+var ErrInvalidTensorShape = errors.New("tensor dimensions do not match the tensor data")
+
 // ErrInvalidRawDataLength is returned when the raw data of a tensor does not consist
 // of a whole number of elements.
 var ErrInvalidRawDataLength = errors.New("raw data length is not a multiple of the element size")
@@ -214,7 +218,53 @@ func TensorFromProto(tp *TensorProto) (tensor.Tensor, error) {
 		return nil, err
 	}
 
-	return tensor.New(tensor.WithShape(getDims(tp)...), tensor.WithBacking(values)), nil
+	dims := getDims(tp)
+
+	nElements := 1
+
+	for _, dim := range dims {
+		if dim < 0 {
+			return nil, ErrInvalidTensorShape
+		}
+
+		nElements *= dim
+	}
+
+	if nElements != nValues(values) {
+		return nil, ErrInvalidTensorShape
+	}
+
+	return tensor.New(tensor.WithShape(dims...), tensor.WithBacking(values)), nil
+}
+
+// nValues returns the number of elements decoded from a TensorProto.
+func nValues(values interface{}) int {
+	switch v := values.(type) {
+	case []float32:
+		return len(v)
+	case []float64:
+		return len(v)
+	case []int8:
+		return len(v)
+	case []int16:
+		return len(v)
+	case []int32:
+		return len(v)
+	case []int64:
+		return len(v)
+	case []uint8:
+		return len(v)
+	case []uint16:
+		return len(v)
+	case []uint32:
+		return len(v)
+	case []uint64:
+		return len(v)
+	case []bool:
+		return len(v)
+	default:
+		return -1
+	}
 }
 
 func getFloatData(tp *TensorProto) ([]float32, error) {
